@@ -30,7 +30,7 @@ def setPath (ix : List (Bytes × Id)) (p : Bytes) (b : Id) : List (Bytes × Id) 
 
 /-- a branch name that stays inside `refs/heads` -/
 def validName (n : Name) : Bool :=
-  n ≠ [] && !List.elem (47 : UInt8) n && !List.elem (92 : UInt8) n && !List.elem (0 : UInt8) n && n ≠ asc "." && n ≠ asc ".."
+  n ≠ [] && !List.elem (47 : UInt8) n && !List.elem (92 : UInt8) n && !List.elem (0 : UInt8) n && !List.elem (10 : UInt8) n && !List.elem (13 : UInt8) n && n ≠ asc "." && n ≠ asc ".."
 
 inductive Op where
   | add (path : Bytes) (blob : Id)          -- `add`: the blob is stored, then the path is staged
